@@ -6,7 +6,9 @@ EXTENDS UcfgReify, Layers, Json, SequencesExt
 
 \* ---------- universe ----------
 Tys == {"I","PI","S","PS","LI","LS","MI","MS","MD","MB"}
+CONSTANT Deep                   \* thorough tier: validator PAIRS on one field as well
 VSets == {{}, {"nonzero"}, {"positive"}, {"min2"}, {"max5"}, {"required"}}
+         \cup (IF Deep THEN {{"min2", "max5"}, {"required", "positive"}, {"nonzero", "max5"}, {"required", "min2", "max5"}} ELSE {})
 Olds(ty) ==
   CASE ty = "I" -> {IntV(0), IntV(3), IntV(-1)}
     [] ty = "PI" -> {NilPtr, PtrV(IntV(0)), PtrV(IntV(3)), PtrV(IntV(-1))}
